@@ -14,7 +14,7 @@ ID = "C10"
 RULE = (
     "A generated calendar (4-10 objects incl. objects with several components of one type - recurrence overrides, two VEVENTs/VTODOs with different times - and 1-2 unparseable stored files injected "
     "with an application/octet-stream PUT) and a program of {query with one of 3-5 generated filters, write, overwrite, delete, restart} in which every filter is repeated past the indexing threshold and "
-    "filters are interleaved so that the index is created, reset and extended. The same program runs against four servers with index_threshold 0, 1, default(5) and 10^9 (index never used); through "
+    "filters are interleaved so that the index is created, reset and extended; 'flip' sequences take a member to its other version and back with index-path queries at each stage; a third of the calendars hold an event in a zone at offset zero that is not UTC (Europe/London in January) with time-ranges at its instants and a non-UTC request time zone. The same program runs against four servers with index_threshold 0, 1, default(5) and 10^9 (index never used); through "
     "Store.iter_with_filter the same is done on tree-git, bare-git and vdir stores. Oracle (differential/metamorphic, independent of RFC correctness): at every query all configurations return the same "
     "set of names, serve the same data for each name (calendar-data / file content, compared by hash), and none answers with an error while another answers with a result; the never-indexing configuration is the 'fresh, never queried' reference. Non-trivial program: some filter was "
     "evaluated through the index path and a write happened between two index-path evaluations of the same filter; distinct by program hash."
@@ -55,6 +55,17 @@ def program(draw):
         else:
             bodies[n] = draw(gen.calendar_object(uid=f"q{i}", style=plain))["raw"]
     alt = {n: draw(gen.calendar_object(uid=f"q{i}", style=plain))["raw"] for i, n in enumerate(names)}
+    zero = None
+    if draw(st.integers(0, 2)) == 0:
+        # an event in a zone whose offset is zero at that date without being UTC: its instants must not be
+        # mistaken for floating or UTC text anywhere between the file and the index
+        zone = draw(st.sampled_from(["Europe/London", "Atlantic/Reykjavik", "Africa/Abidjan"]))
+        day, hour = draw(st.integers(2, 27)), draw(st.integers(1, 20))
+        mk = lambda h: ("BEGIN:VCALENDAR\r\nVERSION:2.0\r\nPRODID:-//xv//EN\r\nBEGIN:VEVENT\r\nUID:lz\r\nDTSTAMP:20200101T000000Z\r\nDTSTART;TZID=%s:202001%02dT%02d0000\r\nDTEND;TZID=%s:202001%02dT%02d0000\r\nSUMMARY:zero offset\r\nEND:VEVENT\r\nEND:VCALENDAR\r\n" % (zone, day, h, zone, day, h + 1)).encode()  # noqa: E731
+        zero = mk(hour)
+        names.append("lz.ics")
+        bodies["lz.ics"] = zero
+        alt["lz.ics"] = mk(hour + 2)
     objs = list(bodies.values()) + list(alt.values())
     filters = []
     for _ in range(draw(st.integers(3, 5))):
@@ -68,6 +79,11 @@ def program(draw):
         ff = draw(c11.focused_time_filter(objs))  # a range that begins or ends at an instant of an existing component
         if ff is not None:
             filters.append(ff)
+    if zero is not None:
+        for _ in range(2):
+            ff = draw(c11.focused_time_filter([zero]))
+            if ff is not None:
+                filters.append(ff)
     for _ in range(draw(st.integers(0, 2))):
         ff = draw(c11.focused_presence_filter(objs))  # presence tests on properties that exist, also with empty / zero values
         if ff is not None:
@@ -83,7 +99,16 @@ def program(draw):
     for j in range(draw(st.integers(0, 2))):
         steps.append({"op": "put-raw", "name": f"broken{j}.ics", "body": enc_body(draw(st.sampled_from([b"this is not a calendar", b"BEGIN:VCALENDAR\r\nBEGIN:VEVENT\r\nSUMMARY:unterminated", b"\xff\xfe\x00binary"])))})
     for _ in range(draw(st.integers(8, 20))):
-        op = draw(st.sampled_from(["burst", "burst", "burst", "query", "query", "put", "delete", "restart", "put-raw", "repair"]))
+        op = draw(st.sampled_from(["burst", "burst", "burst", "query", "query", "put", "delete", "restart", "put-raw", "repair", "flip", "flip"]))
+        if op == "flip":
+            # a member goes to its other version and back, with index-path queries of one filter at each stage
+            n = draw(st.sampled_from(names))
+            f = draw(st.integers(0, len(filters) - 1))
+            first = draw(st.booleans())
+            for body in ((bodies[n], alt[n], bodies[n]) if first else (alt[n], bodies[n], alt[n])):
+                steps.append({"op": "put", "name": n, "body": enc_body(body)})
+                steps.append({"op": "query", "filter": f, "repeat": draw(st.integers(2, 7))})
+            continue
         if op == "burst":
             steps.append({"op": "query", "filter": draw(st.integers(0, len(filters) - 1)), "repeat": draw(st.integers(2, 8))})
         elif op == "query":
@@ -102,7 +127,7 @@ def program(draw):
             steps.append({"op": "put", "name": bn, "body": enc_body(draw(gen.calendar_object(uid="repaired-" + bn[6], style=plain))["raw"])})
         else:
             steps.append({"op": "restart"})
-    return {"filters": filters, "steps": steps, "tz": draw(st.sampled_from(["UTC", "Europe/Amsterdam"])), "engine": draw(st.sampled_from(["http", "http", "store"]))}
+    return {"filters": filters, "steps": steps, "tz": draw(st.sampled_from(["UTC", "Europe/Amsterdam"] if zero is None else ["Europe/Amsterdam", "Europe/Amsterdam", "America/New_York"])), "engine": draw(st.sampled_from(["http", "http", "store"]))}
 
 
 class HttpConfig:
